@@ -776,6 +776,29 @@ func c05RoundTrips(run *mon.Run, r *rand.Rand, cv ref.Conv) {
 				}
 			}
 		}
+		// the slices returned by the encoders are the caller's: modifying them must not change the object
+		if o.pk != nil {
+			want := append([]byte{}, o.pk.Encode()...)
+			wantC := append([]byte{}, o.pk.EncodeCompressed()...)
+			for _, sl := range [][]byte{o.pk.Encode(), o.pk.EncodeCompressed()} {
+				for i := range sl {
+					sl[i] ^= 0x5A
+				}
+			}
+			if !bytes.Equal(o.pk.Encode(), want) || !bytes.Equal(o.pk.EncodeCompressed(), wantC) {
+				run.Violate("C05:encode-aliases-internal-state:public", "modifying the slice returned by Encode()/EncodeCompressed() changed what the key encodes to", rep)
+			}
+		}
+		if o.sk != nil {
+			want := append([]byte{}, o.sk.Encode()...)
+			sl := o.sk.Encode()
+			for i := range sl {
+				sl[i] ^= 0x5A
+			}
+			if !bytes.Equal(o.sk.Encode(), want) {
+				run.Violate("C05:encode-aliases-internal-state:private", "modifying the slice returned by Encode() changed what the private key encodes to", rep)
+			}
+		}
 		run.Shape("roundtrip|" + o.name + "|" + o.alg.String())
 	}
 }
